@@ -107,6 +107,15 @@ def dependencies (ss : List Stmt) (x : Sym) : Except Err (List Sym) :=
   | none => .error .keyError
   | some i => dependenciesAt ss i
 
+/-- No statement reads a symbol that it or a later statement defines (in particular: every
+    symbol is assigned at most once after its first use, and nothing is read before its
+    definition).  Decidable side-condition of the exactness theorem. -/
+def noUseBeforeDef : List Stmt → Bool
+  | [] => true
+  | s :: rest =>
+    s.rhs.all (fun y => !s.defs.contains y && rest.all (fun t => !t.defs.contains y))
+      && noUseBeforeDef rest
+
 /-! ### The pre-repair algorithm (networkx BFS order), kept for the witness -/
 
 /-- BFS from `i` over `succs`, neighbours visited in descending index order
